@@ -55,6 +55,10 @@ def templates(tier, seed=0):
     ts.append({'name': 'self-key', 'src': 'o := {"cur": "a", "a": @h10@, "b": 2}\nif @b0@ {\n    o[o.cur] = @h11@\n} else {\n    o[o["cur"]] += 1\n}\no[o.cur + "2"] = o.a\nfn key() {\n    return o.cur\n}\no[key()] += 1\no.b = o.a + o["b"]\no[o.cur] = o\nprint(o.b)\nprint(o.a2)\nprint(o.a === o)\n'})
     # a property whose value is null is present
     ts.append({'name': 'null-valued', 'src': 'o := {"gap": null, "B": 1, "a": 2, "C": 3, "b": 4}\nprint(o.gap)\nprint(o["gap"])\nk := "gap"\nprint(o[k])\no["n2"] = null\nprint(o["n2"])\nprint(o.n2)\nfor [k2, v2] in o {\n    print(k2)\n}\nprint(o)\n{gap, "n2": z} := o\nprint(gap)\nprint(z)\nprint(o == {"gap": null, "B": 1, "a": 2, "C": 3, "b": 4, "n2": null})\nif @b0@ {\n    print(o["missing"])\n}\n'})
+    # every syntactic form of a key expression denotes its value, in reads, writes, op-assigns, literals and patterns
+    ts.append({'name': 'key-expression-forms', 'src': 's := "1"\nfn kf() {\n    return "k" + s\n}\nks := ["k1"]\no := {"k1": @h10@, "k2": @h11@}\nr := @h0@\nif r == 0 {\n    print(o["k1"])\n    o["k1"] += 1\n    o["k1"] = o["k1"] + 1\n    q := {"k1": 5, "z": 0}\n    print(q)\n    {"k1": x} := o\n    print(x)\n    {"k1": o["k2"]} = q\n    print(o)\n} else if r == 1 {\n    print(o["k" + s])\n    o["k" + s] += 1\n    o["k" + s] = o["k" + s] + 1\n    q := {"k" + s: 5, "z": 0}\n    print(q)\n    {"k" + s: x} := o\n    print(x)\n    {"k" + s: o["k2"]} = q\n    print(o)\n} else if r == 2 {\n    print(o[$"k${s}"])\n    o[$"k${s}"] += 1\n    o[$"k${s}"] = o[$"k${s}"] + 1\n    q := {$"k${s}": 5, "z": 0}\n    print(q)\n    {$"k${s}": x} := o\n    print(x)\n    {$"k${s}": o["k2"]} = q\n    print(o)\n} else if r == 3 {\n    print(o[kf()])\n    o[kf()] += 1\n    o[kf()] = o[kf()] + 1\n    q := {kf(): 5, "z": 0}\n    print(q)\n    {kf(): x} := o\n    print(x)\n    {kf(): o["k2"]} = q\n    print(o)\n} else if r == 4 {\n    print(o[ks[0]])\n    o[ks[0]] += 1\n    o[ks[0]] = o[ks[0]] + 1\n    q := {ks[0]: 5, "z": 0}\n    print(q)\n    {ks[0]: x} := o\n    print(x)\n    {ks[0]: o["k2"]} = q\n    print(o)\n} else if r == 5 {\n    print(o[("k1")])\n    o[("k1")] += 1\n    o[("k1")] = o[("k1")] + 1\n    q := {("k1"): 5, "z": 0}\n    print(q)\n    {("k1"): x} := o\n    print(x)\n    {("k1"): o["k2"]} = q\n    print(o)\n} else if r == 6 {\n    print(o[$"${"k"}${s}"])\n    o[$"${"k"}${s}"] += 1\n    o[$"${"k"}${s}"] = o[$"${"k"}${s}"] + 1\n    q := {$"${"k"}${s}": 5, "z": 0}\n    print(q)\n    {$"${"k"}${s}": x} := o\n    print(x)\n    {$"${"k"}${s}": o["k2"]} = q\n    print(o)\n} else if r == 7 {\n    print(o[$"k1"])\n    o[$"k1"] += 1\n    o[$"k1"] = o[$"k1"] + 1\n    q := {$"k1": 5, "z": 0}\n    print(q)\n    {$"k1": x} := o\n    print(x)\n    {$"k1": o["k2"]} = q\n    print(o)\n}\nprint(o.k1)\n', 'assume': lambda v: [v['h0'] >= 0, v['h0'] < 8, v['h10'] >= -1000, v['h10'] <= 1000]})
+    # keys with spaces, punctuation, quotes, backslashes, control and non-ASCII characters: printed raw, ordered by their bytes
+    ts.append({'name': 'special-keys', 'src': 'o := {"a": 1, "a b": 2, "a!": 3, "": 4, " ": 5, "a\\"q": 6, "a\\\\b": 7, "a\\x09b": 8, "\u00e9": 9, "a\\x7f": 10, "a\\x0dz": 11, "Z": @h10@, "a#": 12}\nprint(o)\nfor [k, v] in o {\n    print(k)\n    print(v)\n}\nprint({"k": {"k 2": 1, "k": 2, "k!": {"": 0, " ": 1}}})\n'})
     # computed names must be strings
     ts.append({'name': 'computed-name', 'src': 'n := "x"\nif @b0@ {\n    n = 1\n}\nprint({n: 2})\n'})
     return ts
